@@ -47,7 +47,7 @@ theorem C10_endianness_flag_used :
     to exactly the values sent, for any number of variables, element counts and item sizes -/
 theorem C10_decode_layout (little : Bool) (ss : List Sent) (h : ∀ s ∈ ss, SentOk s) :
     unpackVars little (ss.map Sent.layout) (serialise little ss)
-      = .ok (ss.map fun s => ⟨s.values, some s.checksum⟩) :=
+      = .ok (ss.map fun s => ⟨s.values, some (swapped little s.checksum)⟩) :=
   unpackVars_serialise little ss h
 
 /-- **Whole response**: DMR chunk + any chunking of the serialised variables, either byte order: the
@@ -59,7 +59,7 @@ theorem C10_response (little : Bool) (layoutsOf : Bytes → Except Err (List Lay
     (hs : ∀ s ∈ ss, SentOk s) (hc : ∀ c ∈ chunks, c.length < 2 ^ 24)
     (hp : chunks.flatten = serialise little ss) :
     unpackResponse true layoutsOf (encodeResponse little dmr chunks)
-      = .ok (dmr, little, ss.map fun s => ⟨s.values, some s.checksum⟩) :=
+      = .ok (dmr, little, ss.map fun s => ⟨s.values, some (swapped little s.checksum)⟩) :=
   unpackResponse_encode little layoutsOf dmr ss chunks hd hl hs hc hp
 
 /-! ### non-vacuity -/
@@ -68,7 +68,7 @@ example : stream2bytearray true (chunkEncode true [[1, 2], [], [3]]) = .ok [1, 2
 example : chunkEncode false [[1, 2], [3]] = [0, 0, 0, 2, 1, 2, 1, 0, 0, 1, 3] := by decide
 example : SentOk ⟨2, [1, 65535], 7⟩ := ⟨by decide, by decide⟩
 example : unpackVars false [⟨2, 2⟩] (serialise false [⟨2, [1, 65535], 7⟩])
-    = .ok [⟨[1, 65535], some 7⟩] := by rfl
+    = .ok [⟨[1, 65535], some 117440512⟩] := by rfl
 example : serialise true [⟨2, [1, 65535], 7⟩] = [1, 0, 255, 255, 7, 0, 0, 0] := by decide
 
 end Pydap.C10
